@@ -77,6 +77,9 @@ class Location(object):
                 self.file_path = file_path.name
             except AttributeError:
                 self.file_path = "<io>"
+            if not isinstance(self.file_path, str) or not self.file_path:
+                # For example temporary files have ``None`` or a file descriptor number as name.
+                self.file_path = "<io>"
         self._line = 0
         self._column = 0
         self._cell = 0
